@@ -13,7 +13,8 @@ CLAIMED = {
             'Bounded solver-based check: split_candle and _sort_execution_orders run on a symbolic candle and symbolic order '
             'prices; every clause of the statement is discharged by z3 for every ordinal arrangement (ties included) of the '
             'explored paths; sessions add the path-model monitor.',
-            'floats modelled as reals; at most 3 (quick) / 4 (thorough) orders per minute in the kernel harness; z3 is trusted',
+            'floats modelled as reals; at most 3 (quick) / 4 (thorough) orders per minute in the kernel harness; sessions with exits, reaction orders '
+            'and a three-point entry ladder (prices in any order, ties included) on one symbolic minute; z3 is trusted',
             TECH),
     'C02': ('DESIGN.md C02',
             'Bounded solver-based check: the real research.backtest (step and fast simulator, Strategy, Broker, Order, Position, '
@@ -38,7 +39,7 @@ CLAIMED = {
             'H-STEP: one operation from an arbitrary symbolic pre-state under the representation invariant (flat states carry resting buys only; '
             'the reserved-sell sums equal the active sells) proves the model step and the invariant.',
             'floats as reals; Decimal helpers as exact +,- (their exactness is a clause of C17); histories up to length 4 exhaustive, '
-            '5-6 targeted (cancel then resubmit)',
+            '5-6 targeted (cancel then resubmit); binary64 only for the resting-sell sums (relaxed-float model, violations confirmed by a binary64 witness)',
             TECH),
     'C05': ('DESIGN.md C05',
             'Bounded solver-based check: every operation skeleton up to length 4 (5 thorough) over submit/execute/cancel/repeated '
@@ -46,7 +47,8 @@ CLAIMED = {
             'history, no-effect of calls on final orders (z3 equality of every balance, position, margin-table and trade-table observable), '
             'active registry and one-trade-per-fill; plus the lifecycle invariants on every order of symbolic backtest sessions, where the '
             'registry reported at every before()/after() is proved equal to the accepted orders without a fill/cancel event.',
-            'floats as reals; at most 3 orders; passive strategy attached (it cancels resting orders as the strategy layer does)',
+            'floats as reals; at most 3 orders; passive strategy attached (it cancels resting orders as the strategy layer does); sessions in cross '
+            'and isolated margin (the simulator\'s forced-liquidation order included)',
             TECH),
     'C09': ('DESIGN.md C09',
             'Bounded solver-based check: liquidation/bankruptcy price lemmas on the real Position properties (symbolic entry, every '
@@ -62,7 +64,8 @@ CLAIMED = {
             '(MARKET iff near, LIMIT/STOP by side), reduce-only closing-side exits; per strategy step an injective map from active SL/TP '
             'orders to the latest (public) declaration and, while no exit of that kind has been filled in the trade, an order for every declared '
             'row; nothing active after close, entries cancelled iff should_cancel_entry().',
-            'floats as reals (threshold is the exact double 0.00015, written like is_price_near); templates T1-T7 (T7: consecutive trades with equal hook-declared exits); valid-side exits assumed; '
+            'floats as reals (threshold is the exact double 0.00015, written like is_price_near); templates T1-T8m (T7: consecutive trades with equal hook-declared exits; T3h: unequal multi-row exits declared in a hook; T8m: a '
+            'declaration that gains and loses a row); valid-side exits assumed; '
             '2-3 symbolic candles',
             TECH),
     'C06': ('DESIGN.md C06',
@@ -78,7 +81,9 @@ CLAIMED = {
             'reading strategy; z3 proves every candle a strategy can read (complete or forming, every route timeframe, warm-up included) '
             'equal to the fold of its aligned window of the stored 1m candles, one candle per started window, and the stored 1m candles '
             'equal to the input up to the documented gap normalisation.',
-            'floats as reals; windows up to 6; sessions up to 8 minutes with at most 2 gapping opens; timeframes 1m/3m/5m/15m',
+            'floats as reals; windows up to 6; sessions up to 8 (11) minutes with at most 2 gapping opens, lengths that are not a multiple of the '
+            'fast-mode step, route timeframes that are not multiples of each other (3m + 5m); timeframes 1m/3m/5m/15m; an exception raised '
+            'by a session is a violation',
             TECH),
     'C20': ('DESIGN.md C20',
             'Bounded solver-based check: _fill_absent_candles with provided candles at symbolic integer minute offsets and symbolic OHLCV; '
@@ -100,7 +105,8 @@ CLAIMED = {
             'Bounded solver-based check: dna_to_hp/convert_number on symbolic genes (ordinals 40..119) with symbolic real bounds and on every '
             'letter with symbolic integer bounds; range, type, own-gene dependence, monotonicity, endpoints by z3; alphabet default compared; '
             'injection precedence through the real _prepare_routes/_init_objects with symbolic values.',
-            'floats as reals (round-half-even over reals); DNAs of 1-3 genes; int parameters with integer bounds',
+            'floats as reals (round-half-even over reals); DNAs of 1-3 genes; int parameters with integer bounds; an int and a float declaration with '
+            'equal bounds decoded from one gene in both orders',
             TECH),
     'C18': ('DESIGN.md C18',
             'Bounded solver-based check: the real DynamicNumpyArray with its module-global numpy replaced by a shape-level shim (length + '
@@ -115,14 +121,16 @@ CLAIMED = {
             'simulator on one path with shared symbols; on paths inside the precondition (at most one resting fill per trading-candle span, '
             'no liquidation) z3 proves executed orders (side, type, qty, price, fill minute), closed trades and final balances equal.',
             'floats as reals; trading timeframes 3m and 5m (15m data route), 2-3 symbolic minutes per session with range < 20 and exits >= 30 '
-            'from the entry; templates T1, T3; spot and futures',
+            'from the entry; templates T1, T3, T1h (an order priced from position.pnl read in the fill hook), T7d (entry decided by a data-route candle; '
+            '3m + 5m routes); session lengths that are not a multiple of the trading timeframe; spot and futures',
             TECH),
     'C01': ('DESIGN.md C01',
             'Bounded solver-based product check: run A on X[:t]+flat tail and run B on X[:t]+Y[t:] (Y fresh symbols) on one path; a recording '
             'strategy and the Order wrappers log everything observable; z3 proves every log entry with time <= X[t].timestamp equal in both '
             'runs (by transitivity: equal for any two tails), in the step and the fast simulator.',
             'floats as reals; sessions of 3-10 minutes, 1-3 symbolic minutes in the prefix and in the tail; templates T1, T1tp, T5, T7; '
-            'routes 1m, 3m, 5m, 1m+5m data, two symbols; warm-up 2-3 (both simulators)',
+            'routes 1m, 3m, 5m, 1m+5m data, two symbols (traded, and data-only read by the strategy); warm-up 2-3 (both simulators); '
+            'template with two resting exits in one minute',
             TECH),
     'C11': ('DESIGN.md C11',
             'Bounded solver-based check: every path runs in a freshly forked process; the probe call runs in a fresh process (a further '
@@ -130,7 +138,8 @@ CLAIMED = {
             'leverage, routes, warm-up, fast mode, aborted by a hook exception or InsufficientMargin); z3 proves fills, trades (pnl, fee), '
             'account type and balances of the later probe equal to the fresh one, the values its strategy reads at every step (shared_vars '
             'counter, a non-sequential indicator, the candles helpers.slice_candles passes on) equal, and the arguments unmodified.',
-            'floats as reals; 6-candle concrete sessions with symbolic account parameters; one prior session; metrics not observed here '
+            'floats as reals; 6-candle concrete sessions (one gapping open) with symbolic account parameters, a partial hyperparameters dict, step and '
+            'fast probe; one prior session; metrics not observed here '
             '(C16); a fresh process is modelled by a fork of a process that imported jesse but never ran a session',
             TECH),
     'C13': ('DESIGN.md C13',
@@ -138,28 +147,32 @@ CLAIMED = {
             'python source of the numba kernels) is executed on n symbolic candles and on every prefix on the same path; z3 proves every '
             'entry of the prefix series equal to the full series (NaN pattern concrete). Indicators that cannot be encoded or exceed the '
             'per-indicator budget are listed under not_encoded in the evidence and are not claimed. Six non-causal indicators are known findings.',
-            'floats as reals; transcendental functions uninterpreted; 7 (10) candles; integer periods lowered to 2/3; the claim covers the '
+            'floats as reals; transcendental functions uninterpreted; 7 (10) candles; integer periods lowered by rank of their defaults to 2/3/4 and a '
+            'second parameter set 3/4/5 (both parities); scipy 1-D max/min filters and numpy interp/mask indexing executed on proxies; the claim covers the '
             'indicators listed as encoded in the evidence of the run',
             TECH),
     'C14': ('DESIGN.md C14',
             'Bounded solver-based check: every encodable public indicator on n symbolic candles with the warm-up window configured to 6: '
             'the sequential result has n entries per field, its last entry equals the non-sequential result (n <= 6), and the non-sequential '
             'result on a longer input equals the sequential result on the trailing window (z3 equality).',
-            'floats as reals; lengths 5 and 8 (4, 6, 9 thorough); periods lowered to 2/3; None and NaN are the same observation; the claim '
+            'floats as reals; lengths 5 and 8 (4, 6, 9 thorough); periods lowered by rank to 2/3/4; None and NaN are the same observation; the claim '
             'covers the indicators listed as encoded',
             TECH),
     'C15': ('DESIGN.md C15',
             'Bounded solver-based differential check: the real indicator and a short textbook reference run on the same symbolic candles; '
             'z3 proves equality (within 1e-6 absolute, because implementations fold constants such as 1/period in binary64) for trailing-window '
             'indicators and EMA-type recurrences with the seed actually used, the recurrence step of Wilder-type smoothers, ma(matype) against '
-            'the selected average, ranges, band ordering, channel enclosure, non-negativity and price homogeneity with a symbolic factor.',
+            'the selected average, ranges, band ordering, channel enclosure, non-negativity, price homogeneity of the averages and scale invariance of the '
+            'dimensionless oscillators (cci, rsi, willr, cmo, mfi) with a symbolic factor from 1e-10 to 1e8.',
             'floats as reals; 5-8 candles and periods 2-3 (2-5 and 10/30/60 on 64 candles for linear ones in thorough); cci / adx family / mfi '
             'only through their ranges',
             TECH),
     'C16': ('DESIGN.md C16',
             'Bounded solver-based check: the unmodified metrics.trades and ratio helpers run on real pandas with dtype=object columns holding '
             'proxies (real ClosedTrade objects built from symbolic fills, symbolic daily balances); z3 proves every identity of the statement; '
-            'equity samples are recomputed from the real account objects in 1-2 day sessions with symbolic starting balance, fee and quantity.',
+            'maximum drawdown against the standard definition that starts at the starting balance; equity samples are recomputed from the real account '
+            'objects in 1-3 day sessions (exact-day length included; spot with two routes and a resting buy on the second) with symbolic starting '
+            'balance, fee and quantity.',
             'floats as reals; pandas mean/std/sum/prod/min/max/cumprod and Expanding.max replaced for object dtype only by textbook definitions; '
             '1-3 (4) trades, 2-3 (5) daily balances; CAGR/Calmar/serenity (fractional powers) outside; one known finding (Sortino denominator)',
             TECH),
